@@ -71,19 +71,21 @@ struct Delivery {
 }
 /// arbitrary delivery + arbitrary approval record (for the same or another app / chain / id / address / payload)
 fn delivery() -> Delivery {
+    delivery_with(any::bytes(3), any::bytes(3))
+}
+/// `payload` is delivered; the approval record was made for `other_payload` (possibly equal)
+fn delivery_with(payload: Bytes, other_payload: Bytes) -> Delivery {
     let env = Env::default();
     any::auths();
     let chain = any::string(2);
     let id = any::string(2);
     let src = any::string(2);
-    let payload = any::bytes(3);
     let ph = ideal_hash(&payload.0);
     // the approval record: same fields or deviating ones
     let a_contract = any::address(5);
     let a_chain = any::string(2);
     let a_id = any::string(2);
     let a_src = any::string(2);
-    let other_payload = any::bytes(3);
     let a_ph = ideal_hash(&other_payload.0);
     let status: u8 = kani::any();
     kani::assume(status <= 2);
@@ -106,7 +108,6 @@ fn check_effect(d: &Delivery) {
     kani::assert(model::events_len() == 1 && model::event_contract(0) == app()
         && model::event_topics(0) == model::topics_of(&(Symbol::new(&d.env, "executed"), d.chain.clone(), d.id.clone(), d.src.clone()))
         && model::event_data(0) == model::val_of(&(d.payload.clone(),)), "VERIF:C16:the app's effect reports the delivered message");
-    kani::cover!(true, "VERIF:reach:delivery executed");
 }
 
 // HARNESS props=C16 tier=quick profile=app shape="shipped example app; delivery and approval record independent, strings <=2, payload <=3 bytes"
@@ -118,6 +119,7 @@ fn c16_example_execute() {
     let d = delivery();
     model::with_contract(&app(), || Example::execute(d.env.clone(), d.chain.clone(), d.id.clone(), d.src.clone(), d.payload.clone()));
     check_effect(&d);
+    kani::cover!(true, "VERIF:reach:delivery executed");
 }
 
 // ---- a minimal app that uses the interface's helper as documented
@@ -142,6 +144,7 @@ fn c16_miniapp_execute() {
     let d = delivery();
     model::with_contract(&app(), || MiniApp::execute(d.env.clone(), d.chain.clone(), d.id.clone(), d.src.clone(), d.payload.clone()));
     check_effect(&d);
+    kani::cover!(true, "VERIF:reach:delivery executed");
 }
 
 // ---- example send: recorders
@@ -197,4 +200,31 @@ fn c07_example_send() {
     kani::assert(unsafe { PG_CALLS == 1 && PG_OK }, "VERIF:C07:gas is paid once, by the caller, for exactly this message");
     kani::assert(unsafe { CC_CALLS == 1 && CC_OK }, "VERIF:C07:exactly this message is sent through the configured gateway as the app");
     kani::cover!(true, "VERIF:reach:message sent");
+}
+
+/// a long payload (1030 bytes) and an approval made for its first 1024 bytes: approved prefix, unapproved whole
+fn long_payload_pair() -> (Bytes, Bytes) {
+    let whole = any::bytes_exact(1030);
+    let mut prefix = whole.clone();
+    let mut i = 1024;
+    while i < 1030 {
+        prefix.0.d[i] = 0;
+        i += 1;
+    }
+    prefix.0.len = 1024;
+    (whole, prefix)
+}
+// HARNESS props=C16 tier=quick profile=app_big shape="payload of 1030 symbolic bytes delivered; the approval record is for its 1024-byte prefix (or, by the symbolic status/fields, for nothing)"
+#[kani::proof]
+#[kani::stub(axelar_gateway::messaging_interface::xc_AxelarGatewayMessagingClient_validate_message, spec_validate_message)]
+#[kani::stub(axelar_gateway::messaging_interface::xc_AxelarGatewayMessagingClient_is_message_approved, spec_is_message_approved)]
+#[kani::stub(axelar_gateway::messaging_interface::xc_AxelarGatewayMessagingClient_is_message_executed, spec_is_message_executed)]
+fn c16_example_execute_long_payload() {
+    let (whole, prefix) = long_payload_pair();
+    let approved_whole: bool = kani::any();
+    let d = delivery_with(whole.clone(), if approved_whole { whole } else { prefix });
+    model::with_contract(&app(), || Example::execute(d.env.clone(), d.chain.clone(), d.id.clone(), d.src.clone(), d.payload.clone()));
+    check_effect(&d);
+    kani::assert(approved_whole, "VERIF:C16:an approval of a prefix of the payload is not an approval of the payload");
+    kani::cover!(true, "VERIF:reach:long delivery executed");
 }
